@@ -6,14 +6,14 @@ use crate::snap;
 use crate::sx::*;
 use pdbtbx::*;
 
-fn diags(v: &[PDBError]) -> Sx {
+pub fn diags(v: &[PDBError]) -> Sx {
     let mut ds: Vec<(String, i128)> = v.iter().map(|e| (e.short_description().to_string(), snap::level(e.level()))).collect();
     ds.sort();
     l(ds.into_iter().map(|(sh, lv)| l(vec![z(lv), s(&sh)])).collect())
 }
 
 /// the documented decimal bounds with the binary64 value Rust gives each of them
-fn float_table() -> Sx {
+pub fn float_table() -> Sx {
     let texts = ["-99.99", "999.99", "-999.999", "9999.999"];
     l(texts
         .iter()
@@ -232,7 +232,15 @@ pub fn run(seed: u64, count: usize, _thorough: bool, out: &mut Out) {
                         label = "diff-element";
                     }
                     3 => {
-                        a.set_charge(a.charge() + 1);
+                        // charges that differ, inside the columns' range or outside it on one side or on both
+                        // (two charges no file can hold are still two different charges)
+                        let other = match rng.below(4) {
+                            0 => a.charge() + 1,
+                            1 => a.charge() + 12,
+                            2 => -10 - a.charge().abs(),
+                            _ => 10 + a.charge().abs(),
+                        };
+                        a.set_charge(other);
                         label = "diff-charge";
                     }
                     4 => {
